@@ -25,8 +25,8 @@ def run(ctx, chk):
     mir = ctx.mir("rspirv")
     dm = codec.decoder_methods(ctx)
 
-    R1 = chk.rule("R-WHO", "Decoder.offset is written only by word() and string(); Decoder.limit only by set_limit, clear_limit, word() "
-                  "and string(); both fields (and the buffer) are private")
+    R1 = chk.rule("R-WHO", "Decoder.offset is written only by the hand-written requests evaluated below (word, string, words, bit64, id, bit32, ext_inst_integer) and "
+                  "private helpers only they call; Decoder.limit by these and set_limit / clear_limit; never by a generated request; both fields (and the buffer) are private")
     wr = {"offset": set(), "limit": set(), "bytes": set()}
     for p, fn in mir.fns.items():
         for b in fn["blocks"]:
@@ -38,7 +38,10 @@ def run(ctx, chk):
                     for adt, fld in ch:
                         if adt.endswith("decoder::Decoder") and fld in wr:
                             wr[fld].add(mir_name(p).split("::{closure")[0].split("::")[-1])
-    allow = {"offset": {"word", "string"}, "limit": {"set_limit", "clear_limit", "word", "string"}, "bytes": set()}
+    # the requests whose effect on offset and limit is evaluated state by state below (R-WORD, R-LIMIT, R-DELEG) may write them
+    from . import stringx as _sx
+    evaluated = {"word", "string"} | set(_sx.HAND)
+    allow = {"offset": set(evaluated), "limit": {"set_limit", "clear_limit"} | evaluated, "bytes": set()}
     # a private helper that only the allowed writers call writes on their behalf
     callers_of = {}
     for p_, fn_ in mir.fns.items():
